@@ -140,9 +140,12 @@ SC = [('abs', 'dsplib::real_t (dsplib::real_t)', 'abs(real)', 'result == fabs(v)
       ('deg2rad', 'dsplib::real_t (const dsplib::real_t &)', 'deg2rad(real)', 'result == x / 180 * PI'),
       ('rad2deg', 'dsplib::real_t (const dsplib::real_t &)', 'rad2deg(real)', 'result == x / PI * 180'),
       ]
+EXTRA_POST = {'db2mag(real)': [('positive', 'result > 0'), ('attenuation', 'Implies(v <= 0, result <= 1)'), ('unity', 'Implies(v == 0, result == 1)')],
+              'db2pow(real)': [('positive', 'result > 0'), ('attenuation', 'Implies(v <= 0, result <= 1)')]}
 for nm, sig, key, post in SC:
     if post.startswith('result == '):
-        fn('dsplib::' + nm, M, sig=sig, key=key, serves=['C17'], pure=True, extra_env=LIBM, value=post[len('result == '):])
+        fn('dsplib::' + nm, M, sig=sig, key=key, serves=['C17'], pure=True, extra_env=LIBM, value=post[len('result == '):],
+           ensures=EXTRA_POST.get(key, []))
     else:
         fn('dsplib::' + nm, M, sig=sig, key=key, serves=['C17'], pure=True, extra_env=LIBM, ensures=[('definition', post)])
 
